@@ -40,6 +40,28 @@ theorem passes_present :
     Gen.imageCloneAndProcessBodyExpected.contains "domutil.MakeAllSrcSetAbsolute(cloned, i.PageURL)" = true := by
   decide +kernel
 
+/-! ### repeated attributes
+
+The parser keeps every copy of a repeated attribute (`<a href=x href=y>`), while `dom.GetAttribute`
+/ `dom.SetAttribute` - and so every absolutising pass - only see the first.  The converter removes
+the later copies from its clone before the walk, so all output derives from elements with distinct
+attribute names, on which "the first `href`" and "every `href`" coincide. -/
+
+theorem convert_dedups_first :
+    Gen.converterConvertBody = ["clone := dom.Clone(root, true)", "domutil.RemoveDuplicateAttributes(clone)",
+      "domutil.WalkNodes(clone, dc.visitNodeHandler, dc.exitNodeHandler)"] := by rfl
+
+/-- after the pass the attribute names of every element of the tree are pairwise distinct -/
+theorem dedup_unique (n : Node) : (dedupNode n).uniqueKeys := dedupNode_unique n
+
+/-- what `dom.GetAttribute` reads (the first copy) is the same before and after, so the pass
+changes no decision of the converter -/
+theorem dedup_reads_unaffected (attrs : List Attr) (k : String) : getAttr (dedupAttrs attrs []) k = getAttr attrs k :=
+  dedup_getAttr attrs k
+
+example : dedupAttrs [⟨"href", "a"⟩, ⟨"class", "c"⟩, ⟨"href", "b"⟩, ⟨"HREF", "d"⟩, ⟨"class", "e"⟩] [] =
+    [⟨"href", "a"⟩, ⟨"class", "c"⟩, ⟨"HREF", "d"⟩] := by decide
+
 /-! non-vacuity -/
 example : ((processClone (fun s => "http://e/" ++ s) (fun s => "S:" ++ s)
     (.elem 0 "p" [] [.elem 1 "a" [⟨"href", "x"⟩, ⟨"onclick", "y"⟩] [.text 2 "t"],
